@@ -211,6 +211,79 @@ def d2_stack(ctx):
               key="fold")
 
 
+def _savgol_vector_form(ctx, repo, fi, du, H):
+    """non_uniform_savgol written with slice stores: y_smoothed[:h] (left border), y_smoothed[N - h:] (right border) and, for blocks `first` of the N - 2h full windows,
+    y_smoothed[first + h : first + h + n] = f(windows first .. first + n), the windows taken from sliding_window_view(x / y, window) (window k starts at sample k, centre k + h).
+    -> False when the function is not written this way."""
+    stores = [st for st in ast.walk(fi.node) if isinstance(st, ast.Assign) and isinstance(st.targets[0], ast.Subscript) and loc_name(st.targets[0].value) == "y_smoothed"]
+    if not stores or not all(isinstance(st.targets[0].slice, ast.Slice) or isinstance(st.targets[0].slice, (ast.Name, ast.Call)) for st in stores):
+        return False
+    if not any("sliding_window_view" in src(st.value) for st in stores):
+        return False
+
+    class E(Evaluator):
+        def ev(self, e):
+            if isinstance(e, ast.Call) and call_name(e) == "len" and e.args and loc_name(e.args[0]) in ("x", "y"):
+                return Poly.sym("N")
+            if isinstance(e, ast.Attribute) and e.attr == "size" and loc_name(e.value) in ("x", "y"):
+                return Poly.sym("N")
+            return super().ev(e)
+    ev = E(resolve=lambda e: repo.resolve_expr(fi, e))
+    ev.env["half_window"] = H
+    ev.facts.int_syms |= {"N", "H", "F"}
+    N, F = Poly.sym("N"), Poly.sym("F")
+    got = {}
+    for st in stores:
+        sl = st.targets[0].slice
+        lp = next((l_ for l_ in fi.node.body if isinstance(l_, ast.For) and any(x is st for x in ast.walk(l_))), None)
+        if isinstance(sl, (ast.Name, ast.Call)):
+            sv = expand_name(du, sl, st)
+            if not (isinstance(sv, ast.Call) and call_name(sv) == "slice" and len(sv.args) == 2):
+                raise AnalysisError(f"non_uniform_savgol: store `{src(st)[:60]}` is not through a slice")
+            lo_e, hi_e = sv.args
+        else:
+            lo_e, hi_e = sl.lower, sl.upper
+        try:
+            if lp is not None:
+                if not (isinstance(lp.iter, ast.Call) and call_name(lp.iter) == "range" and len(lp.iter.args) == 3 and const_value(lp.iter.args[0]) == (True, 0)):
+                    raise AnalysisError("non_uniform_savgol: block loop is not range(0, count, block)")
+                ev.env[loc_name(lp.target)] = F
+                NW, B = ev.ev(lp.iter.args[1]), ev.ev(lp.iter.args[2])
+                lo, hi = ev.ev(lo_e), ev.ev(hi_e)
+                # block [F, F + min(B, NW - F)) of the NW windows, shifted by H
+                want_hi = F + H + ev.ev(ast.parse("min(b_, nw_ - f_)", mode="eval").body) if False else None
+                evb = E(env={"b_": B, "nw_": NW, "f_": F})
+                cnt = evb.ev(ast.parse("min(b_, nw_ - f_)", mode="eval").body)
+                okb = lo == F + H and hi == F + H + cnt and NW == N - Poly.const(2) * H
+                ctx.check(okb, fi, st, f"block store [{lo}, {hi}) for blocks of {B} over {NW} windows", "the centre [h, N - h) is tiled by the blocks of full windows, each output at its window's centre",
+                          f"`{src(st)[:70]}` stores block outputs at [{lo}, {hi}); expected [first + h, first + h + min(block, N - 2h - first)) over N - 2h windows", key="cover-centre", name_free=True)
+                # the windows used are those starting at first .. first + n
+                vw = [x for x in ast.walk(st.value) if isinstance(x, ast.Subscript) and "sliding_window_view" in src(x.value) and isinstance(x.slice, ast.Slice)]
+                okw = bool(vw)
+                for x in vw:
+                    okw = okw and ev.ev(x.slice.lower) == F and ev.ev(x.slice.upper) == F + cnt
+                ctx.check(okw, fi, st, "windows first .. first + n", "output k + h is computed from the window starting at sample k (centred on k + h)",
+                          "the block's outputs are not computed from the windows centred on them", key="window-centre", name_free=True)
+                got["centre"] = True
+            else:
+                lo = ev.ev(lo_e) if lo_e is not None else Poly.const(0)
+                hi = ev.ev(hi_e) if hi_e is not None else N
+                if lo == Poly.const(0) and hi == H:
+                    got["left"] = st
+                elif (lo == N - H or (isinstance(lo_e, ast.UnaryOp) and ev.ev(lo_e.operand) == H)) and hi == N:
+                    got["right"] = st
+                else:
+                    ctx.violation(fi, st, st, f"`{src(st)[:70]}` stores [{lo}, {hi}): neither the left border [0, h) nor the right border [N - h, N)", key="cover-border", name_free=True)
+        except Undecided as e:
+            raise AnalysisError(f"non_uniform_savgol: bounds of `{src(st)[:60]}` not evaluable: {e}")
+    ctx.check("left" in got and "right" in got and got.get("centre"), fi, fi.node, f"stores: {sorted(k for k in got)}", "every output index is assigned once: left border, centre, right border",
+              f"the slice stores cover only {sorted(k for k in got)}: some outputs stay NaN", key="cover", name_free=True)
+    al = [d for d in du.defs if d.var == "y_smoothed" and d.kind == "assign"]
+    oka = bool(al) and isinstance(al[0].value, ast.Call) and al[0].value.args and ev.ev(al[0].value.args[0]) == N
+    ctx.check(oka, fi, al[0].stmt if al else fi.node, al[0].stmt if al else "y_smoothed", "the output has one entry per input sample", "the output vector is not allocated with len(y) entries", key="alloc", name_free=True)
+    return True
+
+
 def d3_savgol_cover(ctx):
     ctx.rule("D3", "non_uniform_savgol assigns every output index once: [0, h) left border, [h, n - h) centre, [n - h, n) right border, h = window // 2; centre window x[i + j - h]")
     repo = ctx.repo
@@ -232,6 +305,8 @@ def d3_savgol_cover(ctx):
     okh = norm(hd[0].value) in (norm(ast.parse("window // 2", mode="eval").body), norm(ast.parse("int(window / 2)", mode="eval").body), norm(ast.parse("(window - 1) // 2", mode="eval").body))
     ctx.check(okh, fi, hd[0].stmt, hd[0].stmt, "half window = window // 2 (window is odd)", f"half window is `{src(hd[0].value)}`", key="half")
     ev.env["half_window"] = H
+    if _savgol_vector_form(ctx, repo, fi, du, H):
+        return
     ranges = []
     for lp in [n for n in fi.node.body if isinstance(n, ast.For)]:
         writes = [st for st in ast.walk(lp) if isinstance(st, (ast.Assign, ast.AugAssign)) and isinstance(st.targets[0] if isinstance(st, ast.Assign) else st.target, ast.Subscript)
@@ -328,8 +403,71 @@ def d4_lp_length(ctx):
               key="pad-mode")
 
 
+def d5_reused_buffers(ctx):
+    ctx.rule("D5", "work buffers allocated once and re-filled per block are read only inside the part filled in the same iteration (a short last block leaves stale rows behind it)")
+    repo = ctx.repo
+    n_checked = 0
+    for q in ("ibldsp.smooth.non_uniform_savgol",):
+        fi = repo.fn(q)
+        du = DefUse(fi.node)
+        for lp in [s_ for s_ in fi.node.body if isinstance(s_, ast.For)]:
+            before = fi.node.body[: fi.node.body.index(lp)]
+            bufs = {loc_name(st.targets[0]) for st in before if isinstance(st, ast.Assign) and isinstance(st.value, ast.Call) and call_name(st.value) in ("empty", "zeros", "empty_like", "zeros_like")
+                    and isinstance(st.targets[0], ast.Name)}
+            inside = [n for b in lp.body for n in ast.walk(b)]
+            # partial fills: out=B[:n] / B[:n] = ...  -> {buffer: name of the count}
+            filled = {}
+            for n in inside:
+                tgt = None
+                if isinstance(n, ast.Call) and kwarg(n, "out") is not None:
+                    tgt = kwarg(n, "out")
+                elif isinstance(n, ast.Assign) and isinstance(n.targets[0], ast.Subscript):
+                    tgt = n.targets[0]
+                if isinstance(tgt, ast.Subscript) and loc_name(tgt.value) in bufs:
+                    first = tgt.slice.elts[0] if isinstance(tgt.slice, ast.Tuple) else tgt.slice
+                    if isinstance(first, ast.Slice) and first.lower is None and first.upper is not None and first.step is None:
+                        filled.setdefault(loc_name(tgt.value), set()).add(src(first.upper))
+            for b, counts in filled.items():
+                if len(counts) != 1:
+                    raise AnalysisError(f"{q}: buffer `{b}` is filled up to different counts {sorted(counts)} in one iteration")
+                cnt = next(iter(counts))
+                # is the count a per-iteration quantity that can be smaller than the buffer (min(block, remaining))?
+                cnames = {x.id for x in ast.walk(ast.parse(cnt, mode="eval")) if isinstance(x, ast.Name)}
+                loopvars = {x.id for x in ast.walk(lp.target) if isinstance(x, ast.Name)}
+                assigned_inside = {d.var for d in du.defs if d.kind in ("assign", "aug") and any(d.stmt is x for x in inside)}
+                if not (cnames & (loopvars | assigned_inside)):
+                    continue    # filled to a fixed length every time: no stale part
+                for n in inside:
+                    if not (isinstance(n, ast.Subscript) and isinstance(n.ctx, ast.Load) and loc_name(n.value) == b):
+                        continue
+                    first = n.slice.elts[0] if isinstance(n.slice, ast.Tuple) else n.slice
+                    n_checked += 1
+                    if isinstance(first, ast.Slice) and first.lower is None and first.upper is not None and src(first.upper) == cnt:
+                        ctx.ok(fi, n, n, f"`{src(n)[:40]}` reads the filled part [:{cnt}]", key=f"buf:{b}:{src(n)[:30]}")
+                        continue
+                    ok_, k = const_value(first)
+                    if ok_ and isinstance(k, int) and k >= 0:
+                        ctx.check(k == 0, fi, n, n, f"row 0 of `{b}` is always filled ({cnt} >= 1 inside the loop)",
+                                  f"`{src(n)[:50]}` reads row {k} of `{b}`, which is only filled when {cnt} > {k}", key=f"buf:{b}:{src(n)[:30]}", name_free=True)
+                        continue
+                    cnt_c = cnt.replace(" ", "")
+                    last_form = (ok_ and isinstance(k, int) and k < 0)
+                    if src(first).replace(" ", "") in (f"{cnt_c}-1", f"({cnt_c})-1"):
+                        ctx.ok(fi, n, n, f"`{src(n)[:40]}` reads the last filled row [{cnt} - 1]", key=f"buf:{b}:{src(n)[:30]}")
+                        continue
+                    if last_form:
+                        ctx.violation(fi, n, n, f"`{src(n)[:50]}` reads row {k} of the re-used buffer `{b}` counted from the END of the buffer, but this iteration filled only the first "
+                                      f"`{cnt[:60]}` rows: when the last block is shorter than the buffer the row read was computed for a window of the PREVIOUS block (other sample spacing) - "
+                                      f"the values derived from it (here the right-border polynomial) are wrong; needs the last FILLED row, `{b}[<count> - 1]`", key=f"buf:{b}:{src(n)[:30]}", name_free=True)
+                        continue
+                    raise AnalysisError(f"{q}: read `{src(n)[:50]}` of the partially filled buffer `{b}` not understood")
+    if n_checked == 0:
+        ctx.note("no work buffer is re-used across iterations with a partial fill")
+
+
 def run(ctx):
     ctx.run(d1_venn_chunks)
     ctx.run(d2_stack)
     ctx.run(d3_savgol_cover)
     ctx.run(d4_lp_length)
+    ctx.run(d5_reused_buffers)
